@@ -5,6 +5,7 @@ import NsyncVerif.Model.FutexDriver
 import NsyncVerif.Model.OnceDriver
 import NsyncVerif.Model.DllDriver
 import NsyncVerif.Model.Deadline
+import NsyncVerif.Model.VCDriver
 /-
   `replay <layer>…` : reads a harness log (or a differential case file) on stdin and feeds every line
   to the selected layers.  A layer answers `ok`, `skip`, `#` or a complaint (`REJECT …`, `MISMATCH …`,
@@ -22,6 +23,7 @@ structure Layers where
   once : Once.Driver.DState := Once.Driver.init
   dll : Dll.Driver.DState := Dll.Driver.init
   deadline : Deadline.Driver.DState := Deadline.Driver.init
+  vc : VC.Driver.DState := VC.Driver.init
 
 /-- Nested API boundaries are logged as `ncall`/`nret` with structured names (`oncesync5.mu`,
     `ctr0.mu`, …); the layers that treat an inner mutex/cv as a black box were written against
@@ -51,6 +53,7 @@ def Layers.feed (l : Layers) (name line : String) : Layers × String :=
   | "time" => let (d, o) := Time.Driver.step l.time line; ({ l with time := d }, o)
   | "emit" => let (d, o) := Emit.Driver.step l.emit line; ({ l with emit := d }, o)
   | "futex" => let (d, o) := Futex.Driver.step l.futex line; ({ l with futex := d }, o)
+  | "vc" => let (d, o) := VC.Driver.step l.vc line; ({ l with vc := d }, o)
   | "deadline" => let (d, o) := Deadline.Driver.step l.deadline line; ({ l with deadline := d }, o)
   | "dll" => let (d, o) := Dll.Driver.step l.dll line; ({ l with dll := d }, o)
   | "once" =>
